@@ -12,7 +12,15 @@ Inductive step :=
 Inductive c16_case :=
 | C16Hist (base : N) (ns : bytes) (steps : list step)
           (watch : list (Z * list wevent))                          (* (header revision, events) per message *)
-          (watch2 : option (Z * list (Z * list wevent))).           (* a second watch from a start revision *)
+          (watch2 : option (Z * list (Z * list wevent)))            (* a second watch from a start revision *)
+(* a prefix watch resumed n events behind (one create and n-1 guarded updates of one key, all inside the event cache):
+   how many events the stream delivered, and whether they were exactly the writes, in revision order.  The model's
+   watch has no channel capacities: shim_watch returns every recorded event from the start revision (C16_watch_prefix) *)
+| C16Backlog (n delivered : N) (ordered : bool)
+(* racing guarded writes on one key through RPCServer.Txn over the Badger engine: [clients] concurrent create-if-absent
+   transactions, then [clients] guarded updates carrying the same expected revision, per round; the largest number of
+   Succeeded=true answers seen in a round.  etcd linearises them: exactly one per compared revision *)
+| C16Race (clients rounds : N) (max_create max_update : N).
 
 (* ------------------------------------------------------------------ equality on observations *)
 
@@ -75,6 +83,8 @@ Definition batches_events (bs : list (Z * list wevent)) : list wevent := flat_ma
 
 Definition c16_check (c : c16_case) : bool :=
   match c with
+  | C16Backlog n delivered ordered => (delivered =? n)%N && ordered
+  | C16Race _ _ mc mu => (mc =? 1)%N && (mu =? 1)%N
   | C16Hist base ns steps w w2 =>
       let '(ok, st) := check_steps ns (b_init base) steps in
       ok
@@ -381,6 +391,8 @@ Definition summarise (codes : list N) : option N :=
 
 Definition c16_oracle (c : c16_case) : option N :=
   match c with
+  | C16Backlog n delivered ordered => ok_if ((delivered =? n)%N && ordered)
+  | C16Race _ _ mc mu => ok_if ((mc <=? 1)%N && (mu <=? 1)%N)
   | C16Hist base ns steps w w2 =>
       let o := oracle_steps ns (mkO (e_init (Z.of_N base)) (Z.of_N base) false [] false) steps in
       summarise (o_codes o
